@@ -31,7 +31,8 @@ def crt(za, zb, h):
     """z with z = za mod 2^h-1, z = zb mod 2^h+1, 0 <= z < 2^(2h)-1"""
     M1, M2 = (1 << h) - 1, (1 << h) + 1
     if M1 == 1: return zb % M2
-    return za % M1 + M1 * (((zb - za) * pow(M1, -1, M2)) % M2)
+    za %= M1
+    return za + M1 * (((zb - za) * pow(M1, -1, M2)) % M2)
 
 def line(b, y, z):
     n = (b + 63) // 64
